@@ -259,7 +259,7 @@ def load_cells():
 
 
 def dump_cells():
-    for fmt in ("xyz", "mol2", "sdf", "qqq"):
+    for fmt in ("xyz", "mol2", "sdf", "qqq", "cdxml"):   # cdxml: readable by molli, but not writable
         for target in ("str", "Path", "stream"):
             for mode in ("a", "w"):
                 for fmtarg in (("explicit", "suffix") if target != "stream" else ("explicit",)):
@@ -395,7 +395,7 @@ LEGS = [
         rule="ALL load/loads/load_all/loads_all cells (fn x 5 formats x src kind x fmt explicit|suffix x 5 otypes x name given|not = 500 cells) on each of 9 bundled xyz / mol2 / cdxml files; "
              "evaluations = cells executed; non-trivial = cell reaches a codec (not rejected by format validation; multi-frame file for the _all functions)"),
     Leg("dump_matrix", check_dump, lambda r: (False, ["kind=" + r["kind"]]), enumerate=enum_dump, exhaustive=True, shards={"quick": 4, "thorough": 4},
-        rule="ALL dump/dumps cells (4 formats x {str path, Path, stream} x mode a|w x fmt explicit|suffix + dumps) on Molecule, Structure, ConformerEnsemble, Conformer"),
+        rule="ALL dump/dumps cells (5 formats incl. the read-only cdxml x {str path, Path, stream} x mode a|w x fmt explicit|suffix + dumps) on Molecule, Structure, ConformerEnsemble, Conformer"),
     Leg("gen", check_matrix, lambda r: (False, ["multi" if r["input"].get("multi") else "single"]), strategy=strat_gen, n={"quick": 300, "thorough": 6000}, shards={"quick": 16, "thorough": 32},
         rule="generated single- and multi-frame xyz / mol2 inputs x 6-14 random load cells each"),
     Leg("gen_dump", check_dump, lambda r: (False, ["kind=" + r["kind"]]), strategy=strat_gen_dump, n={"quick": 300, "thorough": 6000}, shards={"quick": 16, "thorough": 32},
